@@ -199,12 +199,12 @@ func runC18(c *fw.Ctx) {
 			c18Empty(c, l, in())
 		})
 	})
-	c.Cases("numeric", c.N(3000, 2000000), false, func(i int, r *rng.R) {
+	c.Cases("numeric", c.N(3000, 600000), false, func(i int, r *rng.R) {
 		vals, class := genNumeric(r)
 		c18Numeric(c, vals, class)
 	})
 	// Int* family on arbitrary lists (non-int elements interleaved), and the no-qualifying-element results
-	c.Cases("int-family", c.N(2000, 1000000), false, func(i int, r *rng.R) {
+	c.Cases("int-family", c.N(2000, 500000), false, func(i int, r *rng.R) {
 		n := []int{0, 1, 2, 5, 9, r.Range(0, 20), r.Range(0, 20), 40, 130}[r.Intn(9)]
 		vals := make([]any, n)
 		noInts := r.Chance(1, 6)
